@@ -80,8 +80,11 @@ size_t req_stream_size(const struct rtr_bgpsec *data, enum align_type type);
 /* Get the length in bytes for a all signature segments */
 int get_sig_seg_size(const struct rtr_signature_seg *sig_segs, enum align_type type);
 
-/* Check, if there is at least one router key for each SKI from sig_segs. */
-int check_router_keys(const struct rtr_signature_seg *sig_segs, struct spki_table *table);
+/* Check, if there is at least one router key for each SKI from sig_segs that
+ * is registered for the AS of the corresponding segment of sec_path.
+ */
+int check_router_keys(const struct rtr_signature_seg *sig_segs, const struct rtr_secure_path_seg *sec_path,
+		      struct spki_table *table);
 
 /* Store the string representation of a BGPsec_PATH segment in buffer. */
 int bgpsec_segment_to_str(char *buffer, struct rtr_signature_seg *sig_seg, struct rtr_secure_path_seg *sec_path);
